@@ -11,6 +11,9 @@ var controls = map[string][]func(dir string) error{}
 
 // Controls runs the positive controls for a property.
 func Controls(id, dir string) error {
+	if err := RunControls(dir); err != nil {
+		return err
+	}
 	for _, c := range controls[id] {
 		if err := c(dir); err != nil {
 			return err
